@@ -5,8 +5,33 @@
 // family arithmetic, the flush path (memdb -> metricsdata.Flusher -> kv flusher, which registers
 // every new file for every configured rollup interval) and the rollup path
 // (kv family.rollup -> target family.doRollupWork -> metricsdata merger with the rollup
-// context) are production code. The harness keeps every written point in a plain model and,
-// after every step, reads the metric blocks of all target families directly from the kv files.
+// context) are production code.
+//
+// Generator (genPlan): database intervals = (source, month-type target and/or year-type target)
+// with source in {1..60 s} dividing 5 min (hence 1 h and every target), targets {5,10,15,30 min}
+// and {1,2,3,4,6 h}; 1-3 source families (hours) around boundary dates (month ends, leap day,
+// year end/start, last hour of a day + first hour of the next day); 1-3 metrics with 1-5 fields
+// of type sum/min/max/last/first, 1-5 series, values k/8; a history of write / flush (all or
+// some families) / rollup (kv.VerifRollup per family, or Store.ForceRollup) / reopen steps,
+// optionally one crash image taken between two manifest commits of a rollup job, and up to 3
+// queries `select f from m ... group by host,time(<target>)`.
+// Not generated (unsound input): targets that are not a whole multiple of the source or that
+// neither divide 1 h nor are a multiple of it (DatabaseOption.Validate accepts them, nothing
+// documents them as supported; the rollup arithmetic base slot + source slot / ratio cannot be
+// right for them), month-type sources, histogram fields, time zones other than UTC.
+//
+// Oracle: the model is the list of written points. After every step the metric blocks of all
+// families of all segments of every target interval are read directly from the kv files
+// (metricsdata reader) and must hold, per segment / family / metric / series / field / slot,
+// exactly the field-type aggregate of the points of the source files rolled up so far
+// (sum/min/max exact; first/last: one of the contributed values), nothing else and nothing
+// missing; the location (segment name, family name, slot) is computed with Go's calendar, not
+// with lindb's calculators. After a rollup job the source families list exactly the files not
+// yet rolled up and no target family keeps a reference file. A crash image is restarted (once
+// or twice), rolled up again twice, and must then hold every source file exactly once.
+//
+// Non-trivial case: some target slot is fed by >= 2 source slots and >= 2 source files were
+// rolled up.
 package c04
 
 import (
@@ -297,10 +322,8 @@ func genPlan(t *rapid.T) *plan {
 type stepGen struct {
 	t *rapid.T
 	p *plan
-	// last source slot written since the family's last flush, per family/metric/series/field:
-	// memdb loses later slots when an earlier slot of the same series/field arrives afterwards
-	// (side finding of C03, tsdb/memdb/field_writer.go end marker); that is not a rollup matter, so
-	// slots of one series/field are generated in non-decreasing order between two flushes.
+	// last source slot written since the family's last flush, per family/metric/series/field
+	// (only used by the monotoneSlots restriction)
 	last map[string]int
 	// families with rows in memory / with flushed files that wait for rollup (to place the crash image)
 	mem, pend map[int]bool
